@@ -85,8 +85,17 @@ def get_info_modes(ctx):
                   ('unknown-entity-property', struct.pack('<III', 12, 7, 0) + struct.pack('<III', 0x7ffffff0, 0, 0), KeyError),
                   ('method-id-out-of-range', struct.pack('<III', 12, 8, 0) + struct.pack('<III', 900, 4000, 0), IndexError),
                   ('truncated-position', struct.pack('<III', 3, 0x0a, 0) + b'\x01\x02\x03', struct.error)]
+        # ... and a call that fails INSIDE THE CONTROLLER with StopIteration (onBattleEnd before any BattleLogic entity exists: the controller's
+        # `next(e for e in entities ...)` finds nothing) - an exception class that loops and generators treat specially
+        ms_ = [x['name'] for x in b.md.ent['Avatar']['methods']]
+        if 'onBattleEnd' in ms_ and not b.md.ent['Avatar']['methods'][ms_.index('onBattleEnd')]['args']:
+            body_ = struct.pack('<II', 900, ms_.index('onBattleEnd')) + struct.pack('<I', 0)
+            faults.append(('controller-raises-StopIteration', struct.pack('<III', len(body_), 8, 0) + body_, StopIteration))
+        from tools import digest as digest_
+        pref = os.path.join(tmp, 'reference.wowsreplay'); battle.write_replay(pref, 'wowsreplay', {'clientVersionFromXml': vs}, b''.join(frames))
+        ref_hidden = digest_.canon(ReplayParser(pref, strict=True).get_info()['hidden'])
         for name, pkt, exc in faults:
-            mid = len(frames) // 2
+            mid = len(frames) // 2 if name != 'controller-raises-StopIteration' else 1
             stream = b''.join(frames[:mid]) + pkt + b''.join(frames[mid:])
             p = os.path.join(tmp, name + '.wowsreplay'); battle.write_replay(p, 'wowsreplay', {'clientVersionFromXml': vs}, stream)
             ctx.case(('get_info-fault', name), n=2)
@@ -94,6 +103,9 @@ def get_info_modes(ctx):
             try:
                 ReplayParser(p, strict=True).get_info(); raised = None
             except Exception as ex: raised = type(ex)
+            if r.get('hidden') is not None and digest_.canon(r['hidden']) != ref_hidden:
+                ctx.violation(dict(kind='get_info-modes', fault=name, packet=pkt.hex(), problem='lenient summary differs from the summary of the same battle without the failing packet',
+                                   how='a synthetic 13.2.0 battle with that packet spliced in (it fails before changing anything); ReplayParser(path, strict=False).get_info()["hidden"] vs the battle without it'))
             if r.get('hidden') is None or raised is None or not issubclass(raised, exc):
                 ctx.violation(dict(kind='get_info-modes', fault=name, packet=pkt.hex(), lenient_hidden_present=r.get('hidden') is not None, lenient_error=r.get('error'),
                                    strict_raised=(raised.__name__ if raised else None), expected_exception=exc.__name__,
